@@ -170,4 +170,14 @@ func API.decodeStructFields
   ghost before call Deserializer.Skip: assert arg1 == nread && (marked ==> nread == plen)
   ghost after call Deserializer.Skip: marked = false
   loop 1 invariant api != nil && !marked
+
+-- elements of a slice are decoded under THEIR OWN settings (those registered for or tagged on the element type: api.decode
+-- merges them in), never under the slice's: the outer length-prefix width and bounds describe the collection, an element
+-- that is itself a string / slice has its own (checked for this statement only - opt only-ghost-asserts)
+func API.decodeSlice$2
+  opt only-ghost-asserts
+  opt assume-type-asserts
+  requires api != nil && *api != nil
+  modifies everything
+  ghost before call API.decode: assert arg4.lengthPrefixType == nil && arg4.arrayRules == nil && arg4.lexicalOrdering == nil && arg4.fieldKey == nil && arg4.objectType == nil
 @*/
